@@ -111,8 +111,21 @@ def generate(rng, tier):
                         others = [q for q, good in cand[ax2] if not good and q != bad and q == q]
                         if others:
                             qs[ax2][pos2] = rng.choice(others)
+                if dims == 1 and rng.random() < 0.35:
+                    # a long, *sorted* batch (at least as long as the axis) whose only rejected element is a NaN (or an out-of-range
+                    # value) somewhere inside (seed C05-r6m1: a kernel for sorted batches that range-checks the first and last query
+                    # only, with a sortedness test NaN slips through)
+                    k = len(axes[0]) + rng.choice([0, 1, 3, 8])
+                    srt = sorted(rng.choice(inside[0]) for _ in range(k))
+                    if rng.random() < 0.3:
+                        srt.reverse()
+                    ok = True
+                    if S == "F" and rng.random() < 0.7:
+                        srt[rng.randrange(1, k - 1) if k > 2 and rng.random() < 0.8 else rng.randrange(k)] = float("nan")
+                        ok = False
+                    qs = [srt]
                 qshape = rng.choice({4: [[4], [2, 2], [2, 1, 2]], 6: [[6], [2, 3], [3, 2], [1, 2, 3]],
-                                     12: [[2, 3, 2], [3, 2, 2], [2, 2, 3], [12], [2, 3, 1, 2]]}.get(k, [[k], [k], [1, k], [k, 1, 1]]))
+                                     12: [[2, 3, 2], [3, 2, 2], [2, 2, 3], [12], [2, 3, 1, 2]]}.get(k, [[k], [k], [k], [1, k], [k, 1, 1]]))
             dtag, qtag = gen.pick_dims(rng, r, len(qshape))
             if ent == "scalar":
                 dtag = "sta"
